@@ -296,6 +296,8 @@ func (g *Genome) mutateAddLink(innovations InnovationsObserver, generation int, 
 		// Now add the new Gene to the Genome
 		if gene != nil {
 			g.geneInsert(gene)
+			// the phenotype built before this mutation no longer expresses the genome
+			g.Phenotype = nil
 		}
 	}
 
